@@ -36,6 +36,8 @@ CONSTANTS Kinds,     \* families of cases explored in this run
 
 VARIABLE cs
 Kind == cs.kind
+\* the exact isometries of HypIso (pure operators only: atoms, their values, the action on projective points)
+Iso == INSTANCE HypIso WITH MaxLen <- 1, g <- <<>>, kind <- "exact", len <- 0, last <- <<>>
 
 Neg(x) == 0 - x
 IdealPts == {v \in Box(N + 1, B) : v[1] > 0 /\ IsPrim(v) /\ NN(v) = 0}
@@ -79,14 +81,34 @@ IdealOn(w) == {z \in IdealPts : MDot(w, z) = 0}
 PlaneCases(w1) == {[kind |-> "hyperplane", W |-> w] :
                      w \in {v \in Box(N + 1, Bw) : v[1] = w1 /\ IsPrim(v) /\ MNorm(v) > 0 /\ Cardinality(IdealOn(v)) >= N}}
 
+\* "tiny": end points very close together in the Klein model (Euclidean length ~ 1/K): short segments in the middle of
+\* the chord (weights K, K+1 / K+1, K) and ordinary edges (hyperbolic length log(2)/2) about log(K)/2 away from the middle of
+\* the chord, next to U or next to V.  The ideal end points are still exactly {U, V}.
+TinyK == {1000, 20000}
+TinyCoefs == UNION {{<<<<k, k + 1>>, <<k + 1, k>>>>, <<<<k, 1>>, <<k, 2>>>>, <<<<2, k>>, <<1, k>>>>} : k \in TinyK}
+SmallIdeal == {v \in IdealPts : \A i \in 1..(N + 1) : Abs(v[i]) <= 5}
+TinyCases(U) == {[kind |-> "tiny", U |-> U, V |-> V, a |-> c[1], b |-> c[2]] : V \in {z \in SmallIdeal : LexLess(U, z)}, c \in TinyCoefs}
+\* "moved": the image of a segment (and of its geodesic) under an exact isometry.  The library object is obtained by
+\* applying the isometry to the segment U, V, a, b; its stored representatives are whatever the linear map produces.
+MovedAtoms == {t \in Iso!ExactAtoms : \/ t.k = "lox" /\ t.p + t.q = 3
+                                      \/ t.k = "refl" /\ t.v = Iso!Pad(<<1, 2>>)
+                                      \/ t.k = "rot" /\ t.a = 3}
+MovedCases(U) == {c \in {[kind |-> "moved", U |-> U, V |-> V, a |-> a, b |-> b, atom |-> t] :
+                            V \in SmallIdeal, a \in Coefs, b \in Coefs, t \in MovedAtoms} :
+                    SegOK(c) /\ Weight(<<c.U, c.V, c.a, c.b>>) % Thin = 0}
+
 Init == \/ "segment" \in Kinds /\ cs \in {Seed("segment", U) : U \in IdealPts}
         \/ "near" \in Kinds /\ N = 2 /\ cs \in {Seed("near", U) : U \in AxisPts}
+        \/ "tiny" \in Kinds /\ cs \in {Seed("tiny", U) : U \in SmallIdeal}
+        \/ "moved" \in Kinds /\ cs \in {Seed("moved", U) : U \in SmallIdeal}
         \/ "horo" \in Kinds /\ cs \in {Seed("horo", U) : U \in IdealPts}
         \/ "horoarc" \in Kinds /\ N = 2 /\ cs \in {Seed("horoarc", U) : U \in IdealPts}
         \/ "subspace" \in Kinds /\ cs \in {Seed("subspace", U) : U \in SubIdeal}
         \/ "hyperplane" \in Kinds /\ cs \in {Seed("hyperplane", w1) : w1 \in 0..Bw}
 Grow(sd) == CASE sd.fam = "segment" -> SegCases(sd.x)
               [] sd.fam = "near" -> NearCases(sd.x)
+              [] sd.fam = "tiny" -> TinyCases(sd.x)
+              [] sd.fam = "moved" -> MovedCases(sd.x)
               [] sd.fam = "horo" -> HoroCases(sd.x)
               [] sd.fam = "horoarc" -> ArcCases(sd.x)
               [] sd.fam = "subspace" -> SubCases(sd.x)
@@ -96,12 +118,14 @@ Next == cs.kind = "seed" /\ cs' \in Grow(cs)
 (***************************************************************************)
 (* segments and geodesics                                                  *)
 (***************************************************************************)
-IsSeg == Kind \in {"segment", "near"}
+IsSeg == Kind \in {"segment", "near", "tiny"}
 P1 == OnChord(cs.U, cs.V, cs.a)
 P2 == OnChord(cs.U, cs.V, cs.b)
 SegPole == IdealPole(cs.U, cs.V)
 SegStraight == Straight(SegPole)
-SegHs == ~AtHsInfinity(cs.U) /\ ~AtHsInfinity(cs.V) /\ Kind = "segment"
+SegHs == ~AtHsInfinity(cs.U) /\ ~AtHsInfinity(cs.V) /\ Kind \in {"segment", "tiny"}
+\* right to left along the chord: the end point nearer to the right-hand ideal end point comes first
+HalfFirstOnChord(U, V, ab1, ab2) == IF (HalfFirst(U, V) = 1) = ChordBefore(ab1, ab2) THEN 1 ELSE 2
 SmallSeg == \A i \in 1..(N + 1) : Abs(P1[i]) <= 150 /\ Abs(P2[i]) <= 150
 \* rational Poincare / half-space coordinates (HypCoords) exist for both end points
 SquareSeg == SmallSeg /\ IsSquare(NN(P1)) /\ IsSquare(NN(P2))
@@ -121,7 +145,7 @@ SegExp ==
       p1 |-> ChordPoincareSurd(U, V, cs.a), p2 |-> ChordPoincareSurd(U, V, cs.b),
       hs |-> SegHs,
       hc |-> IF SegHs THEN HsOnBoundary(HsGeoCentre(U, V)) ELSE <<>>, hr2 |-> IF SegHs THEN HsGeoRadSq(U, V) ELSE RZero,
-      hfirst |-> IF SegHs /\ N = 2 THEN HalfFirst(P1, P2) ELSE 0,
+      hfirst |-> IF SegHs /\ N = 2 THEN HalfFirstOnChord(U, V, cs.a, cs.b) ELSE 0,
       hgfirst |-> IF SegHs /\ N = 2 THEN HalfFirst(U, V) ELSE 0,
       hu |-> IF SegHs THEN HsOnBoundary(HsHoriz(U)) ELSE <<>>, hv |-> IF SegHs THEN HsOnBoundary(HsHoriz(V)) ELSE <<>>,
       h1 |-> IF SegHs THEN ChordHalfSurd(U, V, cs.a) ELSE <<>>, h2 |-> IF SegHs THEN ChordHalfSurd(U, V, cs.b) ELSE <<>>]
@@ -206,6 +230,7 @@ SegHalf ==
        /\ N = 2 => /\ HsPoleCentre(Normal3(cs.U, cs.V)) = m /\ HsPoleRadSq(Normal3(cs.U, cs.V)) = r2   \* the pole describes the same circle
                    /\ HsHoriz(P1) # HsHoriz(P2)
        /\ SmallSeg => HsDistSqIs(P1, m, r2) /\ HsDistSqIs(P2, m, r2)
+       /\ (SmallSeg /\ N = 2) => HalfFirstOnChord(cs.U, cs.V, cs.a, cs.b) = HalfFirst(P1, P2)
        /\ (Lit /\ N = 2) => HsCentre2(P1, P2) = m[1]
        /\ (Lit /\ SquareSeg) =>
             LET h1 == Halfspace(Prim(P1))
@@ -214,6 +239,52 @@ SegHalf ==
             IN /\ SubSeq(h1, 1, N - 1) = HsHoriz(P1) /\ RSq(h1[N]) = HsHeightSq(P1) /\ RSgn(h1[N]) >= 0
                /\ N = 2 => LET o == Orient(HsOnBoundary(m), IF f = 1 THEN h1 ELSE h2, IF f = 1 THEN h2 ELSE h1)
                            IN o >= 0 /\ (o = 0 => NN(P1) = 0 /\ NN(P2) = 0)       \* half a turn: the whole geodesic
+
+(***************************************************************************)
+(* images of segments under exact isometries                               *)
+(***************************************************************************)
+Img(t, v) == Iso!Act(Iso!AtomVal(t), v)
+MovedExp ==
+  LET U == Img(cs.atom, cs.U)
+      V == Img(cs.atom, cs.V)
+      o1 == OnChord(cs.U, cs.V, cs.a)
+      o2 == OnChord(cs.U, cs.V, cs.b)
+      Q1 == Img(cs.atom, o1)
+      Q2 == Img(cs.atom, o2)
+      W == IdealPole(U, V)
+      st == Straight(W)
+      ang == N = 2 /\ ~st
+      hs == ~AtHsInfinity(U) /\ ~AtHsInfinity(V)
+  IN [kind |-> "moved", n |-> N, atom |-> cs.atom, oU |-> cs.U, oV |-> cs.V, oP1 |-> o1, oP2 |-> o2, a |-> cs.a, b |-> cs.b,
+      U |-> U, V |-> V, P1 |-> Q1, P2 |-> Q2,
+      ku |-> KleinOf(U), kv |-> KleinOf(V), k1 |-> KleinOf(Q1), k2 |-> KleinOf(Q2),
+      straight |-> st,
+      pc |-> IF st THEN <<>> ELSE PoleCentre(W), pr2 |-> IF st THEN RZero ELSE PoleRadSq(W),
+      \* an isometry maps the geodesic from U to V onto the geodesic from its images, keeping the order of the points
+      pfirst |-> IF ang THEN (IF (OrientH(W, U, V) > 0) = ChordBefore(cs.a, cs.b) THEN 1 ELSE 2) ELSE 0,
+      pgfirst |-> IF ang THEN PoincareFirst(W, U, V) ELSE 0,
+      p1 |-> PoincareSurd(Q1), p2 |-> PoincareSurd(Q2),
+      hs |-> hs,
+      hc |-> IF hs THEN HsOnBoundary(HsGeoCentre(U, V)) ELSE <<>>, hr2 |-> IF hs THEN HsGeoRadSq(U, V) ELSE RZero,
+      hfirst |-> IF hs /\ N = 2 THEN HalfFirstOnChord(U, V, cs.a, cs.b) ELSE 0,
+      hgfirst |-> IF hs /\ N = 2 THEN HalfFirst(U, V) ELSE 0,
+      hu |-> IF hs THEN HsOnBoundary(HsHoriz(U)) ELSE <<>>, hv |-> IF hs THEN HsOnBoundary(HsHoriz(V)) ELSE <<>>,
+      h1 |-> IF hs THEN HalfSurd(Q1) ELSE <<>>, h2 |-> IF hs THEN HalfSurd(Q2) ELSE <<>>]
+\* the image points lie on the image geodesic, in the closed ball, the ideal end points stay ideal and distinct, and the
+\* order-based rules agree with the rules evaluated on the image points themselves
+MovedLaws ==
+  Kind = "moved" =>
+    LET e == MovedExp
+        W == IdealPole(e.U, e.V)
+        sm == \A i \in 1..(N + 1) : Abs(e.P1[i]) <= 400 /\ Abs(e.P2[i]) <= 400
+    IN /\ MNorm(e.U) = 0 /\ MNorm(e.V) = 0 /\ e.U # e.V /\ e.U[1] > 0 /\ e.V[1] > 0
+       /\ e.P1[1] > 0 /\ e.P2[1] > 0 /\ e.P1 # e.P2
+       /\ sm => /\ NegNorm(e.P1) >= 0 /\ NegNorm(e.P2) >= 0
+                /\ OnPole(W, e.P1) /\ OnPole(W, e.P2) /\ OnPole(W, e.U) /\ OnPole(W, e.V)
+                /\ (NegNorm(e.P1) = 0) = (NegNorm(e.oP1) = 0)
+                /\ (N = 2 /\ ~Straight(W)) => PoincareFirst(W, e.P1, e.P2) = e.pfirst
+                /\ (N = 2 /\ e.hs) => HalfFirst(e.P1, e.P2) = e.hfirst
+                /\ e.hs => HsDistSqIs(e.P1, HsGeoCentre(e.U, e.V), HsGeoRadSq(e.U, e.V))
 
 (***************************************************************************)
 (* horospheres                                                             *)
@@ -361,6 +432,7 @@ ASSUME \A c \in RescaleFactors : ~RIsZero(c)
 (* emission                                                                *)
 (***************************************************************************)
 Exp == CASE IsSeg -> SegExp
+         [] Kind = "moved" -> MovedExp
          [] Kind = "horo" -> HoroExp
          [] Kind = "horoarc" -> ArcExp
          [] Kind = "subspace" -> SubExp
